@@ -115,11 +115,13 @@ class Reference:
         self.add_data = {}
         self.inv = {}
         self.calls = []          # (node, kd, idx, outcome) in reference order
+        self.executions = []     # one dict per node execution (all its attempts)
         self.defaults = []       # (node, kd)
         self.exec_attempts = defaultdict(list)  # node -> [attempt count per execution]
         self.demanded = set()
         self.iterations = defaultdict(int)   # dest -> re-iterations performed
         self.exhausted = set()
+        self.forced_defaults = []
         self.final = {}          # node -> final Res
         self.oneof_log = []      # (consumer, kw, [(cand, ok)], winner)
         self.switch_log = []     # (consumer, kw, switchnode, label, case|None)
@@ -195,12 +197,16 @@ class Reference:
         kd = kdigest(n, kwargs)
         self.last_kwargs[n] = (dict(kwargs), kd)
         a = 1
+        ex_rec = {'node': n, 'kd': kd, 'idxs': [], 'outcomes': [], 'default': False, 'delay': retry.get('delay') or 0}
+        self.executions.append(ex_rec)
         while True:
             key = (n, kd)
             idx = self.inv.get(key, 0)
             self.inv[key] = idx + 1
             outcome = plan[idx] if idx < len(plan) else 'ok'
             self.calls.append((n, kd, idx, outcome))
+            ex_rec['idxs'].append(idx)
+            ex_rec['outcomes'].append(outcome)
             if outcome == 'ok':
                 self.exec_attempts[n].append(a)
                 return Res(VAL, compute_value(node, kwargs, kd))
@@ -213,6 +219,7 @@ class Reference:
             self.exec_attempts[n].append(a)
             if use_default:
                 self.defaults.append((n, kd))
+                ex_rec['default'] = True
                 return Res(VAL, default_value(node, kwargs, kd))
             return Res(ERR, causes=frozenset({('tok', n, kd, idx, outcome)}))
 
@@ -261,6 +268,7 @@ class Reference:
                 if (node.get('retry') or {}).get('use_default'):
                     kwargs, kd = self.last_kwargs[dest]
                     self.defaults.append((dest, kd))
+                    self.forced_defaults.append((dest, kd))
                     r = Res(VAL, default_value(node, kwargs, kd))
                 else:
                     r = Res(ERR, causes=frozenset({('rec', dest)}))
